@@ -32,6 +32,9 @@ partial def loop (h : IO.FS.Stream) (out : IO.FS.Stream) (sess : EmitSession) : 
   match simCmd sess (words line) with
   | some r => out.putStrLn r; loop h out sess
   | none =>
+  match simCmd2 sess (words line) with
+  | some (sess', r) => out.putStrLn r; loop h out sess'
+  | none =>
   match emitCmd sess (words line) with
   | some (sess', r) => out.putStrLn r; loop h out sess'
   | none => out.putStrLn (handle line); loop h out sess
